@@ -158,6 +158,11 @@ impl Report {
         let known_list: Vec<Value> = known["findings"].as_array().cloned().unwrap_or_default();
         let mut known_hit: BTreeMap<String, (String, u64)> = BTreeMap::new();
         let mut fresh: Vec<Finding> = Vec::new();
+        if std::env::var("VERIF_DEBUG_ALL").is_ok() {
+            for f in &self.findings {
+                eprintln!("FINDING {} {} {} | {}", f.kind, f.class, f.replay["scenario"]["name"].as_str().unwrap_or(""), f.detail);
+            }
+        }
         for f in self.findings.drain(..) {
             let m = known_list.iter().find(|k| {
                 k["property"].as_str() == Some(&f.prop)
